@@ -10,7 +10,7 @@
    [run_line lws text] is the reader model: the simple command at the start of
    [text] as assignments and fields, [OField f] = exactly the field [f]
    whatever HOME and the file system contain. *)
-From Yv Require Import Common.Base C07.Model C07.Spec C07.Proofs C07.Run C07.OracleProofs.
+From Yv Require Import Common.Base C07.Model C07.Spec C07.Proofs C07.Run C07.OracleProofs C07.UmaskProofs.
 Local Open Scope N_scope.
 
 (* the model's white-space table is the 25 code points of Unicode White_Space *)
@@ -20,6 +20,38 @@ Proof. exact rust_ws_table. Qed.
 (* the ASCII facts assumed of the lexer's predicate hold of the real one *)
 Theorem rust_ws_is_ascii_ok : ascii_ok rust_ws.
 Proof. exact rust_ws_ascii_ok. Qed.
+
+(* the lexer's token delimiters (operator characters and blanks) and its
+   blanks: white space except the newline - CR, VT and FF are blanks *)
+Theorem rust_delimiter_table : forall c, is_token_delimiter rust_ws c = true <-> In c delim_table.
+Proof. exact rust_delim_table. Qed.
+
+Theorem rust_blank_class : forall c, is_blank rust_ws c = true <-> In c ws_table /\ c <> c_nl.
+Proof. exact rust_blank_class. Qed.
+
+(* every delimiter of the lexer is a character the quoter quotes *)
+Theorem delimiter_needs_quoting : forall qws lws, (forall c, lws c = true -> qws c = true) ->
+  forall c, is_token_delimiter lws c = true -> char_needs_quoting qws c = true.
+Proof. exact delimiter_needs_quoting. Qed.
+Example cr_vt_ff_are_blanks_and_quoted :
+  forallb (fun c => is_blank rust_ws c && char_needs_quoting rust_ws c
+                    && shape_eqb (quote_shape rust_ws [97; c; 98]) Single) [13; 11; 12; 9; 32; 160] = true.
+Proof. reflexivity. Qed.
+
+(* no tilde position in a bare word: not in front, not after ANY colon *)
+Theorem bare_no_tilde_position : forall qws s, str_needs_quoting qws s = false ->
+  (forall t, s <> c_tilde :: t) /\ (forall a b, s <> a ++ c_colon :: c_tilde :: b).
+Proof. exact bare_no_tilde_position_lemma. Qed.
+
+(* a quoted word is lexed as units that are never subject to tilde expansion
+   (front or after colons) nor to pathname expansion, and strip to [s] *)
+Theorem quoted_word_is_literal : forall qws lws, (forall c, lws c = true -> qws c = true) ->
+  ascii_ok lws -> forall s,
+  exists U,
+    (forall rest, terminator_ok lws rest -> lex lws MUnq (quote qws s ++ rest) = LWord U rest)
+    /\ tilde_front U = false /\ tilde_everywhere U = false
+    /\ glob_active U = false /\ strip U = s.
+Proof. exact quote_units_lemma. Qed.
 
 (* what the quoter leaves bare has nothing special in it *)
 Theorem bare_is_inert : forall qws lws, (forall c, lws c = true -> qws c = true) ->
@@ -159,6 +191,28 @@ Example decl_line_reads_back_nonvacuous :
         [OpWord [45; 120]; OpWord [45; 45]; OpAssign [110; 49] [97; 58; 126]]) ++ [c_nl])
      = COk (mkSimple [] (map OField [s_typeset; [45; 120]; [45; 45]; [110; 49; 61; 97; 58; 126]])) [c_nl].
 Proof. split; [reflexivity | vm_compute; reflexivity]. Qed.
+(* names that need quoting, with the -- separator:  typeset -r -- '-r x'=3 *)
+Example decl_line_quoted_name :
+  run_line rust_ws (s_typeset ++ spaced (map (operand_text rust_ws)
+        [OpWord [45; 114]; OpWord [45; 45]; OpPair [45; 114; 32; 120] [51]; OpPair [99; 91] [93]]) ++ [c_nl])
+  = COk (mkSimple [] (map OField [s_typeset; [45; 114]; [45; 45]; [45; 114; 32; 120; 61; 51]; [99; 91; 61; 93]])) [c_nl].
+Proof. vm_compute. reflexivity. Qed.
+
+(* ARRAYS.  name=(Q1 Q2 ...) as `set`, `typeset -p`, ... print an array: the
+   reader model reads it as the array assignment with exactly those elements
+   (elements are expanded like command words; none is a pattern or a tilde) *)
+Theorem array_line_reads_back : forall qws lws, (forall c, lws c = true -> qws c = true) ->
+  ascii_ok lws -> forall name vs rest,
+  simple_word name = true ->
+  run_array_line lws (name ++ c_eq :: c_lpar :: array_body (map (quote qws) vs) ++ c_rpar :: rest)
+  = AOk name (map OField vs) rest.
+Proof. exact array_line_lemma. Qed.
+Example array_line_nonvacuous :
+  run_array_line rust_ws ([97; 114; 114] ++ c_eq :: c_lpar
+        :: array_body (map (quote rust_ws) [[49]; []; [39; 92]; [42]; [126]; [97; 13; 98]]) ++ [c_rpar; c_nl])
+  = AOk [97; 114; 114] (map OField [[49]; []; [39; 92]; [42]; [126]; [97; 13; 98]]) [c_nl]
+  /\ run_array_line rust_ws ([120] ++ c_eq :: c_lpar :: array_body [] ++ [c_rpar]) = AOk [120] [] [].
+Proof. split; vm_compute; reflexivity. Qed.
 
 (* LISTINGS.  The texts [set_text] / [trap_text] / [alias_text] are what the
    model says `set`, `trap` and `alias` print for a state (compared with the
@@ -177,6 +231,34 @@ Proof. exact trap_listing_fuel_lemma. Qed.
 Example listing_nonvacuous :
   Forall (fun p => simple_word (fst p) = true) [([73; 78; 84], [101; 99; 104; 111; 32; 39; 34]); ([69; 88; 73; 84], [])].
 Proof. repeat constructor. Qed.
+
+(* the `set +o` listing (first `set +o portable`, unmodifiable options as
+   comments, `set -o portable` last if it was on) reads back as those commands *)
+Theorem set_o_listing_reads_back : forall st,
+  Forall (fun p => simple_word (fst p) = true) st ->
+  run_lines ws (lines_fuel (set_o_text st)) (set_o_text st) = Some (set_o_cmds st).
+Proof. exact set_o_listing_lemma. Qed.
+Example set_o_listing_nonvacuous :
+  run_lines ws (lines_fuel (set_o_text [(s_portable, s_on); ([115; 116; 100; 105; 110], [111; 102; 102]); ([118; 105], s_on)]))
+    (set_o_text [(s_portable, s_on); ([115; 116; 100; 105; 110], [111; 102; 102]); ([118; 105], s_on)])
+  = Some [set_cmd s_plus_o s_portable; mkSimple [] []; set_cmd s_minus_o [118; 105]; set_cmd s_minus_o s_portable].
+Proof. vm_compute. reflexivity. Qed.
+
+(* UMASK (bound in the statement: masks below 0o1000).  Whatever the current
+   mask is, giving the output of `umask -S` / `umask` for the mask [m] back to
+   `umask` sets the mask [m]: printer, operand parser and clause evaluation of
+   the model, all 512 x 512 combinations evaluated by vm_compute *)
+Theorem umask_symbolic_round_trip : forall m cur, (m < 512)%N -> (cur < 512)%N ->
+  umask_set cur (show_symbolic m) = ROk m.
+Proof. exact umask_symbolic_lemma. Qed.
+
+Theorem umask_octal_round_trip : forall m cur, (m < 512)%N -> (cur < 512)%N ->
+  umask_set cur (show_octal m) = ROk m.
+Proof. exact umask_octal_lemma. Qed.
+
+(* the fuel of the operand parser is enough for every operand *)
+Theorem umask_fuel_suffices : forall bits operand, umask_set bits operand <> RFuel.
+Proof. exact umask_set_fuel. Qed.
 
 (* the alias listing, given to one `alias --` command as the harness does *)
 Theorem alias_listing_reads_back : forall st,
@@ -215,3 +297,13 @@ Print Assumptions trap_listing_reads_back.
 Print Assumptions alias_listing_reads_back.
 Print Assumptions alias_listing_refuted.
 Print Assumptions decl_line_reads_back.
+Print Assumptions rust_delimiter_table.
+Print Assumptions rust_blank_class.
+Print Assumptions delimiter_needs_quoting.
+Print Assumptions bare_no_tilde_position.
+Print Assumptions quoted_word_is_literal.
+Print Assumptions set_o_listing_reads_back.
+Print Assumptions umask_symbolic_round_trip.
+Print Assumptions umask_octal_round_trip.
+Print Assumptions umask_fuel_suffices.
+Print Assumptions array_line_reads_back.
